@@ -191,13 +191,13 @@ impl DiscriminantType {
                     let abs = proc_macro2::Literal::u128_unsuffixed(value.unsigned_abs());
 
                     arms_token_stream.extend(if *value < 0 {
-                        quote::quote!( Self::#variant_ident { .. } => -#abs, )
+                        quote!( Self::#variant_ident { .. } => -#abs, )
                     } else {
-                        quote::quote!( Self::#variant_ident { .. } => #abs, )
+                        quote!( Self::#variant_ident { .. } => #abs, )
                     });
                 }
 
-                quote::quote! {
+                quote! {
                     {
                         let self_discriminant: #self = match self { #arms_token_stream };
                         let other_discriminant: #self = match other { #arms_token_stream };
@@ -207,7 +207,7 @@ impl DiscriminantType {
                 }
             },
             _ => {
-                quote::quote! {
+                quote! {
                     unsafe {
                         ::core::cmp::Ord::cmp(&*<*const _>::from(self).cast::<#self>(), &*<*const _>::from(other).cast::<#self>())
                     }
